@@ -21,6 +21,10 @@ known("KF2-spurious-negative-cycle-subcycle-under-negation", SEMP,
       "0.3::a :- \\+r. p :- p. r :- r. r :- \\+p. query(a).   (expected P(a)=0, no cycle through negation)",
       match_any=[{"clause": c, "error": "NegativeCycle", "chain": "createCycle<notify_cycle<cycleDetected"}
                  for c in ["negative-cycle-on-stratified"] + REL[1:]])
+known("KF42-negative-cycle-missed-after-positive-shortcut", SEMP,
+      "a cycle through negation is not detected when the negated goal was first called POSITIVELY below an active goal that already had a proof: the call of the active goal is answered at once with the goal's own (still open) result node, the caller completes and is tabled, and a later negated call of the tabled goal hits a complete entry, for which no cycle check is made; the ground formula then contains a cycle through negation and a probability is reported where the program has no two-valued well-founded model. Needs three clauses of one predicate or three predicates on the cycle (the exhaustive two-predicate family of C02 has no such case)",
+      "0.5::w. b :- w. b :- c. b :- \\+c. c :- b. query(b).   (answers b: 0.5; with the clauses of b in the order \\+c, c or with c first, NegativeCycle is raised)",
+      match={"clause": "answered-negative-cycle", "negscc_wide": True})
 UNB = ["unbuf", "rc", "rand"]
 known("KF5-unbuffered-indirect-call-cycle-error", ["C04"],
       "unbuffered engine modes (unbuffered=True, rc_first, documented random order) raise IndirectCallCycleError from EvalDefine.cycleDetected on cyclic programs that contain no findall/call at all",
@@ -278,6 +282,9 @@ fixed("FX28-false-proof-on-a-cycle", ["C01", "C03", "C27"], "b6488b4",
       "a deterministically false first proof of a goal on a cycle was stored as None, taken for 'no result', written to the table while the goal was active, and forwarded as a result "
       "(as identifier of an EvalAnd's second conjunct None reads as 'first conjunct'). Reproduced message by message by Engine.tla (Engine_prefix_falseresult.cfg)",
       "0.6::g. t. p :- g, \\+g. p :- r. q :- p. r :- t. r :- q. query(p).   (AssertionError in the default order)")
+fixed("FX29-cycle-check-on-released-stack-record", ["C04"], "b1e0c0c",
+      "AttributeError ('NoneType' object has no attribute 'parent') in StackBasedEngine.checkCycleActive (introduced by the repair FX27) in the unbuffered engine modes: a cycle child / sibling recorded on an active goal can point at a stack slot that was already released; found by C04 with seed 2",
+      "0.6::f(c2). 0.3::f(c1). d(c1). d(c2). p :- f(c2). p :- d(X). q(Y) :- d(Y), p. q(X) :- d(X), q(Y), d(Y), d(Y). r(Y) :- d(Y), q(X). r(c2) :- d(Y), \\+p. s :- q(c2), s. query(r(V)). evidence(r(c2)).   with StackBasedEngine(unbuffered=True)")
 fixed("FX1-break-cycles-true-child", ["C01", "C09"], "29bdee9",
       "AssertionError in LogicFormula.get_node(0) from _break_cycles when a disjunction below an evidence node contains the TRUE node",
       "0.1::h(c1). d(c1). d(c2). p(X) :- d(X), r(c1). p(Y) :- d(Y). r(X) :- p(X). r(Y) :- d(Y), h(X). query(p(c1)). evidence(r(c1)).")
